@@ -66,6 +66,20 @@ def registry_ids(include_f64=False):
     return ids
 
 
+# operand index -> "inc" (non-decreasing) / "sinc" (strictly increasing): validity predicates the
+# library documents for these functions (jnp.searchsorted: "a: sorted array"; digitize/histogram: monotonic
+# bins; interp: increasing xp).  Outside them JAX's binary search and the exported counting lowering
+# legitimately differ.
+SORTED_INPUTS = {
+    "searchsorted": {0: "inc"},
+    "digitize": {1: "inc"},
+    "histogram": {1: "inc"},
+    "histogram2d": {2: "inc", 3: "inc"},
+    "histogramdd": {1: "inc", 2: "inc"},
+    "interp": {1: "sinc"},
+}
+
+
 class OutOfBound(Exception):
     pass
 
@@ -109,6 +123,11 @@ def registry_program(pid, max_input_elems=4096) -> Program:
             cfg[k] = list(tp[k])
     if tp.get("normalization_mode"):
         cfg["normalization_mode"] = tp["normalization_mode"]
+    meta = {"context": tp.get("context"), "component": tp.get("component"), "testcase": tp["testcase"]}
+    srt = SORTED_INPUTS.get(tp.get("component"))
+    if srt:
+        # documented precondition of the library function: this operand is monotonic
+        meta["sorted_inputs"] = {i: ("dec" if "decreasing" in tp["testcase"] else m) for i, m in srt.items()}
     prog = Program(
         pid=pid,
         fn=fn,
@@ -116,6 +135,6 @@ def registry_program(pid, max_input_elems=4096) -> Program:
         config=cfg,
         input_params=dict(tp.get("input_params") or {}),
         input_values=[np.asarray(v) for v in values] if values is not None else None,
-        meta={"context": tp.get("context"), "component": tp.get("component"), "testcase": tp["testcase"]},
+        meta=meta,
     )
     return prog
